@@ -195,6 +195,7 @@ PROPS = {
         "assumptions": ["real processes on loopback TCP, unprivileged uid", "time.Now() only for signing dates"],
         "jobs": [
             {"run": "TestC01A", "quick": 560, "thorough": 16000, "shards_quick": 16, "shards_thorough": 16},
+            {"run": "TestC01D", "quick": 2000, "thorough": 100000, "shards_quick": 2, "shards_thorough": 8},
         ],
     },
     "C06": {
